@@ -346,7 +346,8 @@ def body(max_ops, c):
     rb.inputs = rin
     try:
         rout, rtrace = interpret(prog, rin, rb)
-    except OverflowError:
+    except (OverflowError, ValueError, ZeroDivisionError):
+        # the reference itself left the floats (inf / nan after values blew up in a loop): not a usable program
         return Outcome("numpy_rejects", detail="reference overflow (values blow up in a loop)", sample=sample)
     if not isinstance(rout, T.RV) or rout.id is None:
         return Outcome("numpy_rejects", detail="constant output", sample=sample)
